@@ -106,6 +106,8 @@ pub enum Damage {
     /// overwrite k bytes at offset
     /// overwrite the whole payload of record r with one byte value (e.g. invalid UTF-8 in a string)
     FillPayload(usize, u8),
+    /// one extra byte appended to the payload of record r, length field raised by one (an odd-length record in an otherwise intact stream)
+    PadByte(usize, u8),
     Noise(Vec<(usize, u8)>),
     Random(Vec<u8>),
     PrefixPlusRandom(usize, Vec<u8>),
@@ -192,6 +194,14 @@ pub fn apply(img: &[u8], recs: &[Rec], d: &Damage) -> Vec<u8> {
             v
         }
         Damage::Random(b) => b.clone(),
+        Damage::PadByte(r, byte) => {
+            let mut v = img[..end_of(*r)].to_vec();
+            v.push(*byte);
+            let l = (recs[*r].payload.len() + 5) as u16;
+            v[recs[*r].at..recs[*r].at + 2].copy_from_slice(&l.to_be_bytes());
+            v.extend_from_slice(&img[end_of(*r)..]);
+            v
+        }
         Damage::PrefixPlusRandom(t, b) => {
             let mut v = img[..*t].to_vec();
             v.extend_from_slice(b);
@@ -224,6 +234,9 @@ fn record_faults(recs: &[Rec], r: usize, foreign: &[Vec<u8>], full_types: bool) 
         for b in [0xFFu8, 0x80, 0xC3, 0x00] {
             v.push(Damage::FillPayload(r, b));
         }
+    }
+    for b in [0x00u8, b'x'] {
+        v.push(Damage::PadByte(r, b));
     }
     v.push(Damage::Delete(r));
     v.push(Damage::Duplicate(r));
@@ -597,6 +610,7 @@ impl Check for C10 {
                 Damage::Truncate(_) => out.probes.hit("case_truncation"),
                 Damage::Len(..) | Damage::EmptyPayload(_) => out.probes.hit("case_length_field"),
                 Damage::FillPayload(..) => out.probes.hit("case_payload_filled"),
+                Damage::PadByte(..) => out.probes.hit("case_odd_length_record_with_extra_byte"),
                 Damage::Rtype(..) => out.probes.hit("case_record_type"),
                 Damage::Dtype(..) => out.probes.hit("case_data_type"),
                 Damage::Delete(_) => out.probes.hit("case_record_deleted"),
